@@ -199,6 +199,31 @@ pub fn check(c: &Case) -> CheckResult {
                         }
                     }
                 }
+            } else if spread != 0 {
+                // a window of more than two periods of a repeating/reflecting gradient holds every colour of it
+                for s in stops {
+                    ts.push(s.pos as f64);
+                }
+                ts.extend([0.0, 1e-9, 1.0 - 1e-9, 1.0]);
+            }
+            // a premultiplied channel is quadratic in t between two stops (alpha(t) * colour(t)), so its extreme
+            // can lie strictly inside a stop interval: when the window is wide enough for the 65 samples to
+            // be sparse against the stop gaps (>= 0.02), sample every stop interval densely as well
+            if hi - lo > 0.05 {
+                let wide = kmax - kmin > 4;
+                let ks: Vec<i64> = if wide { vec![0] } else { (kmin..=kmax).collect() };
+                for k in ks {
+                    for pair in stops.windows(2) {
+                        for j in 1..16 {
+                            let p = pair[0].pos as f64 + (pair[1].pos as f64 - pair[0].pos as f64) * j as f64 / 16.0;
+                            for cand in [k as f64 + p, k as f64 + 1.0 - p] {
+                                if (wide && spread != 0) || (cand >= lo && cand <= hi) {
+                                    ts.push(cand);
+                                }
+                            }
+                        }
+                    }
+                }
             }
             let mut cmin = [f64::INFINITY; 4];
             let mut cmax = [f64::NEG_INFINITY; 4];
@@ -284,6 +309,9 @@ pub fn check(c: &Case) -> CheckResult {
     o.class_if(tmin < 0.0, "t<0-seen");
     o.class_if(tmax > 1.0, "t>1-seen");
     o.class_if(a255 < 255.0, "alpha<1");
+    if let SrcSpec::TwoCircle { x1, y1, x2, y2, .. } = &c.src {
+        o.class_if(x1 == x2 && y1 == y2, "twocircle:concentric");
+    }
     if let SrcSpec::Linear { x0, y0, x1, y1, .. } = &c.src {
         o.class_if(y0 == y1 && x1 < x0, "linear:horizontal-right-to-left");
         o.class_if(y0 == y1 && x1 > x0, "linear:horizontal-left-to-right");
